@@ -20,8 +20,9 @@ EXTENDS Integers, Sequences, FiniteSets, TLC, Json
 CONSTANTS Mode, MaxLen
 
 \* ("alias": the per-path cache of the deployed account a symbolic address was resolved to)
-Keys == {"s0", "t0", "bal", "code", "time", "s1", "alias"}
-Setup == [k \in Keys |-> CASE k = "s0" -> 7 [] k = "s1" -> 1 [] k = "time" -> 1 [] OTHER -> 0]
+\*  "cfg": the configuration in force (the --loop bound): per test, from the layers below the function annotation)
+Keys == {"s0", "t0", "bal", "code", "time", "s1", "alias", "cfg"}
+Setup == [k \in Keys |-> CASE k = "s0" -> 7 [] k = "s1" -> 1 [] k = "time" -> 1 [] k = "cfg" -> 2 [] OTHER -> 0]
 
 \* the concrete test functions of harness: checks/c20.py builds one bytecode body per entry
 Tests == [
@@ -39,6 +40,9 @@ Tests == [
     \* it could only pass if some earlier test had already pinned the address to another account
     alias_a        |-> [writes |-> [alias |-> 1], expects |-> << >>],
     alias_b        |-> [writes |-> [alias |-> 1], expects |-> [alias |-> 1]],
+    \* annotated carries `@custom:halmos --loop 4`; loopy passes only under the contract's own bound (--loop 2)
+    annotated      |-> [writes |-> [cfg |-> 4],   expects |-> << >>],
+    loopy          |-> [writes |-> << >>,          expects |-> [cfg |-> 2]],
     inv_a          |-> [writes |-> << >>,          expects |-> [s1 |-> 1]],
     inv_b          |-> [writes |-> << >>,          expects |-> [s1 |-> 1, s0 |-> 7]]
 ]
